@@ -657,6 +657,26 @@ func (c *Ctx) registerTensorIntrinsics(tab map[string]intrinsicFn) {
 		tab["(*gorgonia.org/tensor.AP)."+name] = h
 		tab["(*gorgonia.org/tensor.array)."+name] = h
 	}
+	// typed raw accessors of the storage header (d.Bools(), d.Float32s(), ...): the backing slice itself,
+	// a 1-element slice for scalars
+	for name, dt := range map[string]tensor.Dtype{"Bools": tensor.Bool, "Float32s": tensor.Float32, "Float64s": tensor.Float64,
+		"Ints": tensor.Int, "Int8s": tensor.Int8, "Int16s": tensor.Int16, "Int32s": tensor.Int32, "Int64s": tensor.Int64,
+		"Uints": tensor.Uint, "Uint8s": tensor.Uint8, "Uint16s": tensor.Uint16, "Uint32s": tensor.Uint32, "Uint64s": tensor.Uint64} {
+		name, dt := name, dt
+		tab["(*gorgonia.org/tensor/internal/storage.Header)."+name] = func(c *Ctx, fn *ssa.Function, a []Value) Value {
+			s := c.asShadow(a[0])
+			if s == nil {
+				panic(c.goPanic("nil receiver for %s", name))
+			}
+			if s.abs || s.dt != dt {
+				panic(c.abort("%s() on a tensor of dtype %v (reinterpreting raw memory is unmodelled)", name, s.dt))
+			}
+			c.E.Stubs["tensor."+name]++
+			so, _ := c.elemSort(s.dt)
+			d := s.ids.Int64s()
+			return SliceV{B: &idArr{ids: d, sort: so, owner: s}, Len: len(d), Cap: len(d)}
+		}
+	}
 	tab[P+"Transpose"] = func(c *Ctx, fn *ssa.Function, a []Value) Value {
 		c.E.Stubs["tensor.Transpose"]++
 		s := c.asShadow(a[0])
